@@ -14,6 +14,7 @@ from . import core
 
 PROPERTY = "C19"
 SIM_PREFIX = "/xsim-disk/"
+FAKE_FD_BASE = 1 << 20
 
 NAMES = ["a", "b", "c", "cell__a", "cell-b", "t-x", "t_y", "wavelength", "o11", "o-12",
          "fit-tolerance", "z", "Y", "distance", "y-center", "tilt_x", "chi", "no-bins", "p.q",
@@ -205,6 +206,11 @@ class SimRaw(io.RawIOBase):
         # an open handle refers to the file (inode) it opened: a competing writer that replaces the path
         # (write-new-then-rename) does not change what this handle reads
         self.buf = disk.files.get(path)
+        disk.next_fd = getattr(disk, "next_fd", FAKE_FD_BASE) + 1
+        self._fd = disk.next_fd
+        if not hasattr(disk, "fds"):
+            disk.fds = {}
+        disk.fds[self._fd] = self
 
     def readable(self):
         return self._r
@@ -216,7 +222,7 @@ class SimRaw(io.RawIOBase):
         return True
 
     def fileno(self):
-        return FAKE_FD_BASE + (id(self) % 100000)
+        return self._fd
 
     def isatty(self):
         return False
@@ -327,6 +333,7 @@ class SimRaw(io.RawIOBase):
             return
         d = self.disk
         io.RawIOBase.close(self)
+        getattr(d, "fds", {}).pop(self._fd, None)
         if self in d.open_raws:
             d.open_raws.remove(self)
         if self._w and d.close_fail and not d.frozen:
@@ -358,7 +365,11 @@ def make_open(disk, real_open):
                                                        str(getattr(file, "__fspath__", lambda: file)()))
         except Exception:
             path = None
-        if not (isinstance(path, str) and path.startswith(SIM_PREFIX)):
+        raw_given = None
+        if isinstance(file, int) and not isinstance(file, bool) and file in getattr(disk, "fds", {}):
+            raw_given = disk.fds[file]
+            path = raw_given.path
+        elif not (isinstance(path, str) and path.startswith(SIM_PREFIX)):
             return real_open(file, mode, buffering, encoding, errors, newline, closefd, opener)
         m = mode.replace("t", "").replace("U", "")
         binary = "b" in m
@@ -367,6 +378,26 @@ def make_open(disk, real_open):
         m = m.replace("+", "")
         if m not in ("r", "w", "a", "x"):
             raise core.HarnessError("simulated disk: unsupported open mode %r" % mode)
+        if raw_given is not None:
+            raw = raw_given
+            bs = disk.bufsize if buffering in (-1, None) else buffering
+            if bs == 0:
+                return raw
+            if plus or (raw.readable() and raw.writable() and m == "r"):
+                buf = io.BufferedRandom(raw, max(1, bs)) if raw.readable() and raw.writable() else (
+                    io.BufferedWriter(raw, max(1, bs)) if raw.writable() else io.BufferedReader(raw, max(1, bs)))
+            else:
+                buf = io.BufferedReader(raw, max(1, bs)) if m == "r" else io.BufferedWriter(raw, max(1, bs))
+            if binary:
+                return buf
+            t = SimText(buf, encoding or "utf-8", errors, newline, buffering == 1)
+            t._disk = disk
+            t.mode = mode
+            try:
+                t._CHUNK_SIZE = max(1, disk.chunk)
+            except Exception:
+                pass
+            return t
         if disk.open_err:
             e = disk.open_err
             disk.open_err = None
@@ -497,7 +528,80 @@ def make_os_seams(disk):
             return real[name](fd)
         return f
 
-    out = {"exists": exists, "isfile": isfile, "getsize": getsize, "remove": remove, "unlink": remove,
+    real.update({"open": os.open, "close": os.close, "write": os.write, "read": os.read, "fstat": os.fstat,
+                 "ftruncate": os.ftruncate, "lseek": os.lseek})
+
+    def fds():
+        if not hasattr(disk, "fds"):
+            disk.fds = {}
+        return disk.fds
+
+    def os_open(pth, flags, mode=0o777, *a, **k):
+        q = sim(pth)
+        if q is None:
+            return real["open"](pth, flags, mode, *a, **k)
+        if disk.open_err:
+            e = disk.open_err
+            disk.open_err = None
+            disk.fire("open_" + e.lower())
+            disk.unrecoverable = True
+            raise _sim_oserror(OSError, getattr(errno, e), "simulated " + e, q)
+        acc = flags & os.O_ACCMODE
+        present = q in disk.files
+        if not present and not (flags & os.O_CREAT):
+            raise _sim_oserror(FileNotFoundError, errno.ENOENT, "No such file or directory (simulated disk)", q)
+        if present and (flags & os.O_CREAT) and (flags & os.O_EXCL):
+            raise _sim_oserror(FileExistsError, errno.EEXIST, "File exists (simulated disk)", q)
+        if not present:
+            disk.files[q] = bytearray()
+        if acc == os.O_RDONLY:
+            raw = SimRaw(disk, q, "r", False)
+        else:
+            rw = acc == os.O_RDWR
+            if flags & os.O_TRUNC:
+                raw = SimRaw(disk, q, "w", rw)
+            elif flags & os.O_APPEND:
+                raw = SimRaw(disk, q, "a", rw)
+            else:
+                raw = SimRaw(disk, q, "r", True)
+                if not rw:
+                    raw._r = False
+        disk.open_raws.append(raw)
+        return raw.fileno()
+
+    def os_close(fd):
+        r = fds().get(fd) if isinstance(fd, int) else None
+        return r.close() if r is not None else real["close"](fd)
+
+    def os_write(fd, data):
+        r = fds().get(fd) if isinstance(fd, int) else None
+        return r.write(data) if r is not None else real["write"](fd, data)
+
+    def os_read(fd, n):
+        r = fds().get(fd) if isinstance(fd, int) else None
+        if r is None:
+            return real["read"](fd, n)
+        b = bytearray(n)
+        k_ = r.readinto(b)
+        return bytes(b[:k_])
+
+    def os_fstat(fd):
+        r = fds().get(fd) if isinstance(fd, int) else None
+        if r is None:
+            return real["fstat"](fd)
+        return os.stat_result((_stat.S_IFREG | 0o644, 1, 1, 1, 0, 0, len(r.buf), 0, 0, 0))
+
+    def os_ftruncate(fd, size):
+        r = fds().get(fd) if isinstance(fd, int) else None
+        return r.truncate(size) if r is not None else real["ftruncate"](fd, size)
+
+    def os_lseek(fd, pos, how):
+        r = fds().get(fd) if isinstance(fd, int) else None
+        return r.seek(pos, how) if r is not None else real["lseek"](fd, pos, how)
+
+    out = {"open": os_open, "close": os_close, "write": os_write, "read": os_read, "fstat": os_fstat,
+           "ftruncate": os_ftruncate, "lseek": os_lseek,
+           "exists": exists, "isfile": isfile, "getsize": getsize, "remove": remove, "unlink": remove,
            "rename": rename, "replace": rename, "stat": stat, "lstat": stat, "access": access,
            "chmod": noop_on_file("chmod"), "utime": noop_on_file("utime"), "islink": islink, "isdir": isdir,
            "lexists": exists, "fsync": fsync_like("fsync"), "fdatasync": fsync_like("fdatasync")}
@@ -506,7 +610,6 @@ def make_os_seams(disk):
     return real, out
 
 
-FAKE_FD_BASE = 1 << 20
 PATH_FUNCS = ("exists", "isfile", "getsize", "islink", "isdir", "lexists")
 
 
